@@ -90,7 +90,7 @@ def _check(rep, channel, cases, obs, tally, filed):
         filed[key] += 1
         if filed[key] > 3:
             continue            # same defect family: counted in coverage.channels, three replay files are enough
-        small = dict(c, channel=channel, deviation_at_step=k)
+        small = dict(c, channel=channel, deviation_at_step=k, id="%s@%s" % (c["id"], channel))
         rep.finding(key, small, {"status": o["status"], "ub": o.get("ub"),
                                  "step": o["steps"][k - 1] if k <= len(o["steps"]) else None}, mism,
                     "IdSet history %s (%s, T=%s): %s" % (c["id"].split("@")[0], channel, c.get("ty"),
@@ -155,7 +155,7 @@ def run(prop, tier, seed):
     filed = collections.Counter()
     results = {}
     t0 = time.time()
-    native_cases = [_variant(c, ty) for c in cases for ty in ("string", "u32", "arr4")]
+    native_cases = [_variant(c, ty) for c in cases for ty in (("string", "u32", "arr4") if quick else ("string", "arr4"))]
     results["native"] = (native_cases,) + utilchan.run("native", native_cases, wd, "native", jobs=4, case_timeout=1.0)
     utilchan.build_asan()
     asan_cases = [_variant(c, ty) for c in cases for ty in (("string",) if quick else ("string", "u32"))]
@@ -220,9 +220,9 @@ def run(prop, tier, seed):
         "exhaustive": True,
         "rule": "histories = all sequences of mutating operations enumerated by TLC (spec/props/C37.tla, configs %s), the full "
                 "read-only API is projected after every step; distinct = distinct histories; non-trivial = uses at least two "
-                "different operation kinds; every history is replayed natively for 3 element types, under ASan for %d (+ an "
+                "different operation kinds; every history is replayed natively for %d element types, under ASan for %d (+ an "
                 "observe-only-at-the-end variant of the histories that clone), and a seed-%d stratified sample under Miri (Tree Borrows and Stacked Borrows)"
-                % (",".join(cfgs), 1 if quick else 2, seed),
+                % (",".join(cfgs), 3 if quick else 2, 1 if quick else 2, seed),
         "histories": len(cases),
         "history_steps_expected": sum(len(c["expect"]) for c in cases),
         "ops_by_kind": dict(ops_count), "duplicate_inserts": dup_inserts,
